@@ -32,7 +32,11 @@ def main():
                 print(f"SKIP {m['id']}: pattern not found in {m['file']}")
                 bad += 1
                 continue
-            open(path, "w").write(src.replace(m["old"], m["new"], 1))
+            src = src.replace(m["old"], m["new"], 1)
+            if m.get("needs_import"):
+                _, a, b = m["needs_import"]
+                src = src.replace(a, b, 1)
+            open(path, "w").write(src)
             rc, out = sh("go build ./...", cwd=repo)
             if rc != 0:
                 print(f"INVALID {m['id']}: does not build\n{out[-400:]}")
